@@ -28,3 +28,7 @@ for _p in (os.path.join(_HERE, "stubs"), os.path.join(_HERE, "fakes"), ROOT):
         sys.path.insert(0, _p)
 
 GUARD = "ASPIRE_VERIF"  # reserved name of the (unused) hook guard
+
+import warnings as _w
+
+_w.filterwarnings("ignore")
